@@ -175,9 +175,11 @@ def make_replay(exp0, inputs, takes, role):
 def body(ctx):
     prog = ctx.load(overflow_checks=True)
     N = ctx.q(2, 3)
-    W = ctx.q(4, 5)
+    W = ctx.q(4, 4)
+    ND = 2   # early-drop phase: the dropped iterator is that of the ND-th confirmation
     ctx.bound('raw_confirmations_N', N)
     ctx.bound('tag_window_W', W)
+    ctx.bound('early_drop_confirmations', ND)
     ctx.bound('iterator_unwind', W + 3)
     ctx.assume(f"all delivery tags and the starting tag are below 2^64-64 (the counter cannot reach 2^64 in practice); inputs lie in [1, expected0+{W})")
     ctx.assume("HashMap<u64,Confirm> behaves as a finite map (summarised as SMT arrays: present/kind/tag/mult)")
@@ -348,9 +350,9 @@ def body(ctx):
     # ================= (D) early iterator drop leaves the smoother in the same state as running to completion
     early_pairs = 0
     base_paths = [st0.fork()]
-    for i in range(N - 1):
+    for i in range(ND - 1):
         base_paths = step_all(base_paths, i, z3.BitVecVal(1, 64), False)
-    i = N - 1
+    i = ND - 1
     kind, tag, mult = z3.BitVec(f'in{i}.kind', 64), z3.BitVec(f'in{i}.tag', 64), z3.Bool(f'in{i}.mult')
     for st in base_paths:
         if 'panic' in st.roots:
